@@ -322,7 +322,7 @@ def truncation_sites(run, repo, tier):
         for node in ast.walk(fn.node):
             if isinstance(node, ast.Assign) and len(node.targets) == 1 and isinstance(node.targets[0], ast.Name) and node.targets[0].id == 'indices' and 'np.where' in norm_text(node.value):
                 n += 1
-    run.floor('relative-threshold truncation idioms (np.where(s / s[0] > threshold)) in the repository', n, 10)
+    run.floor('relative-threshold truncation idioms (np.where(s / s[0] > threshold)) in the repository', n, 4)      # 13 on the pinned tree; a helper extraction legitimately merges sites
     run.note(f'{n} threshold-truncation sites found in the source; those inside tensor_train.py / solvers are exercised by the Layer-2 scenarios of C03-C05, C07, C08, C11')
 
 
